@@ -623,6 +623,115 @@ func main() {
 	}
 	sort.Strings(pools)
 	def("syncPools", "List String", leanStrList(pools))
+	// package-level mutable state: a package variable that holds a channel / map / made container (a free list, a cache,
+	// a registry) or that some function assigns to is shared by every goroutine that enters the package, with no receiver
+	// field for the access table to see (seeded change X18: a channel-based free list of datagram buffers)
+	var pkgState []string
+	for _, fl := range [][]*ast.File{mapperF, fsmF, lruF, rrF, eventF, relayF, exporterF, registryF, listenerF, lineF} {
+		vars := map[string]bool{}
+		for _, f := range fl {
+			for _, d := range f.Decls {
+				gd, ok := d.(*ast.GenDecl)
+				if !ok || gd.Tok != token.VAR {
+					continue
+				}
+				for _, sp := range gd.Specs {
+					vs := sp.(*ast.ValueSpec)
+					for i, nm := range vs.Names {
+						vars[nm.Name] = true
+						container := false
+						switch vs.Type.(type) {
+						case *ast.ChanType, *ast.MapType:
+							container = true
+						}
+						if i < len(vs.Values) {
+							if ce, ok := vs.Values[i].(*ast.CallExpr); ok {
+								if id, ok := ce.Fun.(*ast.Ident); ok && (id.Name == "make" || id.Name == "new") {
+									container = true
+								}
+							}
+							if cl, ok := vs.Values[i].(*ast.CompositeLit); ok {
+								if _, ok := cl.Type.(*ast.MapType); ok {
+									container = true
+								}
+							}
+						}
+						if container {
+							pkgState = append(pkgState, fmt.Sprintf("%s:%s:container", filepath.Base(fset.Position(nm.Pos()).Filename), nm.Name))
+						}
+					}
+				}
+			}
+		}
+		rootIdent := func(e ast.Expr) *ast.Ident {
+			for {
+				switch x := e.(type) {
+				case *ast.Ident:
+					return x
+				case *ast.SelectorExpr:
+					e = x.X
+				case *ast.IndexExpr:
+					e = x.X
+				case *ast.StarExpr:
+					e = x.X
+				case *ast.ParenExpr:
+					e = x.X
+				default:
+					return nil
+				}
+			}
+		}
+		isPkgVar := func(id *ast.Ident) bool {
+			if id == nil || !vars[id.Name] {
+				return false
+			}
+			if id.Obj == nil {
+				return true // resolved in another file of the package
+			}
+			if vs, ok := id.Obj.Decl.(*ast.ValueSpec); ok {
+				for _, f := range fl {
+					for _, d := range f.Decls {
+						if gd, ok := d.(*ast.GenDecl); ok {
+							for _, sp := range gd.Specs {
+								if sp == ast.Spec(vs) {
+									return true
+								}
+							}
+						}
+					}
+				}
+			}
+			return false
+		}
+		for _, f := range fl {
+			for _, d := range f.Decls {
+				fd, ok := d.(*ast.FuncDecl)
+				if !ok || fd.Body == nil {
+					continue
+				}
+				ast.Inspect(fd.Body, func(n ast.Node) bool {
+					switch st := n.(type) {
+					case *ast.AssignStmt:
+						if st.Tok == token.DEFINE {
+							return true
+						}
+						for _, lhs := range st.Lhs {
+							if id := rootIdent(lhs); isPkgVar(id) {
+								pkgState = append(pkgState, fmt.Sprintf("%s:%s:written in %s", filepath.Base(fset.Position(st.Pos()).Filename), id.Name, fd.Name.Name))
+							}
+						}
+					case *ast.IncDecStmt:
+						if id := rootIdent(st.X); isPkgVar(id) {
+							pkgState = append(pkgState, fmt.Sprintf("%s:%s:written in %s", filepath.Base(fset.Position(st.Pos()).Filename), id.Name, fd.Name.Name))
+						}
+					}
+					return true
+				})
+			}
+		}
+	}
+	sort.Strings(pkgState)
+	def("packageLevelState", "List String", leanStrList(pkgState))
 	b.WriteString("\nend SE.Gen\n")
 	fmt.Print(b.String())
 }
